@@ -6,7 +6,7 @@
 // harness widen the windows between the cache's critical sections.
 
 use std::cell::{Cell, RefCell};
-use std::sync::atomic::{AtomicBool, AtomicU64, AtomicUsize, Ordering};
+use std::sync::atomic::{AtomicBool, AtomicPtr, AtomicU64, Ordering};
 
 /// `Scanner::read`
 pub const SITE_SCANNER_READ: usize = 0;
@@ -84,7 +84,7 @@ pub struct CacheEvent {
 
 static RECORDING: AtomicBool = AtomicBool::new(false);
 static STAMP: AtomicU64 = AtomicU64::new(0);
-static YIELD_FN: AtomicUsize = AtomicUsize::new(0);
+static YIELD_FN: AtomicPtr<()> = AtomicPtr::new(std::ptr::null_mut());
 
 /// Switch event recording on or off (all threads).
 pub fn set_recording(on: bool) {
@@ -115,16 +115,19 @@ pub fn take_events() -> Vec<CacheEvent> {
 
 /// Install (or remove) the function called at every yield point.
 pub fn set_yield_fn(f: Option<fn(usize)>) {
-    YIELD_FN.store(f.map_or(0, |f| f as usize), Ordering::Relaxed);
+    YIELD_FN.store(
+        f.map_or(std::ptr::null_mut(), |f| f as *mut ()),
+        Ordering::Relaxed,
+    );
 }
 
 /// A point between two critical sections of a cache; calls the installed function, if any.
 #[inline]
 pub fn yield_point(site: usize) {
     let f = YIELD_FN.load(Ordering::Relaxed);
-    if f != 0 {
+    if !f.is_null() {
         // SAFETY: only `set_yield_fn` stores here, and it stores a valid `fn(usize)`.
-        let f: fn(usize) = unsafe { std::mem::transmute::<usize, fn(usize)>(f) };
+        let f: fn(usize) = unsafe { std::mem::transmute::<*mut (), fn(usize)>(f) };
         f(site);
     }
 }
